@@ -23,10 +23,14 @@ Abstract: what a transaction does.  A transaction is `arrive` (decides: wait,
 replay, BAD_SEQID/BAD_STATEID, or start) and `finish` with the response as
 INPUT; OPEN really is two lock-held sections (the lock is dropped around
 `VirtualOpenChild`), the others run both steps without releasing the lock.
+* `txLockInitial` (l. 1259-1335): LOCK with `open_to_lock_owner4` runs a NESTED
+  lock-owner transaction inside the open-owner transaction: a new lock-owner
+  starts unconditionally, an existing one that is already associated with the
+  file yields BAD_SEQID, otherwise its own `startTransaction` decides (replay
+  of a cached LOCK response / BAD_SEQID / start); whatever comes out is the
+  response the open-owner transaction completes with.
 Not modelled: client records and their expiry, garbage collection of unused
-open-owners, RELEASE_LOCKOWNER, and the nested lock-owner transaction of LOCK
-with `new_lock_owner` on an ALREADY EXISTING lock-owner (the model covers new
-lock-owners; the harness generates only those).
+open-owners, RELEASE_LOCKOWNER.
 -/
 namespace BbRe.Replay40
 
@@ -80,9 +84,9 @@ structure OpenOwner where
   lastDone   : Option (Req × Resp) := none -- ghost: last transaction that completed AND advanced
 deriving Repr, Inhabited
 
-/-- `nfs40LockOwnerState` (present in `confirmedClient.lockOwners` iff `live`). -/
+/-- `nfs40LockOwnerState`. The object exists (is in `confirmedClient.lockOwners`)
+exactly while it has lock-owner files, see `lockLive`. -/
 structure LockOwner where
-  live     : Bool := false
   lastSeq  : Nat := 0
   lastResp : Option Resp := none
 deriving Repr, Inhabited
@@ -91,7 +95,7 @@ structure State where
   oo        : Nat → OpenOwner := fun _ => {}
   openOther : Nat → Option Nat := fun _ => none          -- `openOwnerFilesByOther`: other ↦ open-owner
   lo        : Nat → LockOwner := fun _ => {}
-  lockOther : Nat → Option (Nat × Nat) := fun _ => none  -- `lockOwnerFilesByOther`: other ↦ (lock-owner, open other)
+  lockFiles : List (Nat × Nat × Nat) := []                -- `lockOwnerFilesByOther`: (lock other, lock-owner, open other)
   waiting   : List (Nat × Nat) := []                      -- ghost: calls blocked on an owner's transaction (call, owner)
   execs     : List (Nat × Req) := []                      -- ghost: transactions started, in order
 
@@ -131,15 +135,23 @@ def forget (s : State) (o : Nat) : State :=
     oo := fun k => if k = o then { s.oo k with lastResp := none, closedFile := none, lastDone := none } else s.oo k
     openOther := fun f => if (s.oo o).lastResp.isSome && (s.oo o).closedFile == some f then none else s.openOther f }
 
+/-- `lockOwnerFilesByOther[l]`: (lock-owner, open state ID other of its file). -/
+def lockLookup (s : State) (l : Nat) : Option (Nat × Nat) :=
+  (s.lockFiles.find? (fun e => e.1 == l)).map (·.2)
+
+/-- The lock-owner object exists: it has at least one lock-owner file. -/
+def lockLive (s : State) (lk : Nat) : Bool := s.lockFiles.any (fun e => e.2.1 == lk)
+
+/-- `oofs.lockOwnerFiles[los]` exists: the lock-owner is associated with the open file. -/
+def lockAssoc (s : State) (lk f : Nat) : Bool := s.lockFiles.any (fun e => e.2.1 == lk && e.2.2 == f)
+
 /-- `reinitialize`: forget the response and remove every file of the owner
 (with the lock-owner files that hang off them). -/
 def reinit (s : State) (o : Nat) : State :=
   let s1 := forget s o
   { s1 with
     openOther := fun f => if s1.openOther f = some o then none else s1.openOther f
-    lockOther := fun l => match s1.lockOther l with
-      | some (lk, f) => if s1.openOther f = some o then none else some (lk, f)
-      | none => none }
+    lockFiles := s1.lockFiles.filter (fun e => s1.openOther e.2.2 != some o) }
 
 /-- Start of the new transaction proper (after the seqid checks). -/
 def begin (s : State) (o call : Nat) (r : Req) : State :=
@@ -165,54 +177,104 @@ def arrive (s : State) (call : Nat) (r : Req) : State × Out :=
       | .open_ => (begin (reinit s o) o call r, .started)
       | _ => (s, .reply (.err errBadSeqid))
 
-/-- Input of `finish`: the response, and for a successful LOCK with a new
-lock-owner the lock-owner and the lock seqid it was created with. -/
+/-- Input of `finish`: the response the operation produced and, for LOCK with
+`open_to_lock_owner4`, the lock-owner named in the request, its lock seqid,
+and whether `txLockInitial` got as far as the lock-owner (`reached = false`:
+the open state ID was refused first). For a LOCK whose nested transaction does
+not start, `resp` is ignored. -/
 structure Fin where
-  resp    : Resp
+  resp      : Resp
   lockOwner : Nat := 0
-  lockSeq : Nat := 0
+  lockSeq   : Nat := 0
+  reached   : Bool := false
 deriving Repr, Inhabited
+
+/-- Outcome of the nested lock-owner transaction of `txLockInitial`. -/
+inductive Nested
+  | start (initial : Bool)   -- the lock is attempted (new lock-owner or successor seqid)
+  | cached (r : Resp)        -- replay of the lock-owner's cached LOCK response
+  | fail                     -- NFS4ERR_BAD_SEQID
+deriving DecidableEq, Repr, Inhabited
+
+def nested (s : State) (lk f lockSeq : Nat) : Nested :=
+  if !lockLive s lk then .start true
+  else if lockAssoc s lk f then .fail
+  else
+    match (s.lo lk).lastResp with
+    | some resp =>
+      if lockSeq == (s.lo lk).lastSeq then (if resp.kind = .lock then .cached resp else .fail)
+      else if lockSeq ≠ nextSeq (s.lo lk).lastSeq then .fail else .start false
+    | none => if lockSeq ≠ nextSeq (s.lo lk).lastSeq then .fail else .start false
+
+/-- The response the open-owner transaction completes with. -/
+def effResp (s : State) (r : Req) (x : Fin) : Resp :=
+  if r.kind == .lock && x.reached then
+    match nested s x.lockOwner r.other x.lockSeq with
+    | .start _ => x.resp
+    | .cached c => c
+    | .fail => ⟨.lock, errBadSeqid, none, x.resp.body⟩
+  else x.resp
+
+/-- What the call that ran the transaction returns, in the vocabulary of `Reply`
+(`cached` = "the bytes of that response"). -/
+def effReply (s : State) (r : Req) (x : Fin) : Reply :=
+  if r.kind == .lock && x.reached then
+    match nested s x.lockOwner r.other x.lockSeq with
+    | .start _ => .cached x.resp
+    | .cached c => .cached c
+    | .fail => .err errBadSeqid
+  else .cached x.resp
+
+/-- Did the nested lock-owner transaction run the lock operation? -/
+def nestedStarted (s : State) (r : Req) (x : Fin) : Option Bool :=
+  if r.kind == .lock && x.reached then
+    match nested s x.lockOwner r.other x.lockSeq with
+    | .start i => some i
+    | _ => none
+  else none
 
 /-- `transaction.complete` plus the state changes of the transaction that the
 replay layer depends on. Returns the reply of the call that ran the
 transaction and the calls that are woken (they retry with `arrive`). -/
-def finish (s : State) (o : Nat) (x : Fin) : State × Option (Nat × Resp) × List Nat :=
+def finish (s : State) (o : Nat) (x : Fin) : State × Option (Nat × Reply) × List Nat :=
   match (s.oo o).busy with
   | none => (s, none, [])
   | some (call, r) =>
     let ow := s.oo o
-    let adv := shouldComplete x.resp.status
-    let ok := x.resp.status == 0
+    let e := effResp s r x
+    let adv := shouldComplete e.status
+    let ok := e.status == 0
     let ow' : OpenOwner :=
       { ow with
         busy := none
         lastSeq := if adv then r.seq else ow.lastSeq
-        lastResp := if adv then some x.resp else ow.lastResp
+        lastResp := if adv then some e else ow.lastResp
         closedFile := if adv then (if ok && r.kind == .close then some r.other else none) else ow.closedFile
-        lastDone := if adv then some (r, x.resp) else ow.lastDone
+        lastDone := if adv then some (r, e) else ow.lastDone
         confirmed := ow.confirmed || (ok && r.kind == .openConfirm) }
     let closing := ok && r.kind == .close
+    let started := nestedStarted s r x
+    let files1 := if closing then s.lockFiles.filter (fun t => t.2.2 != r.other) else s.lockFiles
     ({ s with
         oo := fun k => if k = o then ow' else s.oo k
         openOther := fun f =>
-          match x.resp.sid with
+          match e.sid with
           | some (f', _) => if ok && r.kind == .open_ && f = f' then some o else s.openOther f
           | none => s.openOther f
-        lockOther := fun l =>
-          match x.resp.sid with
-          | some (l', _) =>
-            if ok && r.kind == .lock && l = l' then some (x.lockOwner, r.other)
-            else match s.lockOther l with
-              | some (lk, f) => if closing && f = r.other then none else some (lk, f)
-              | none => none
-          | none =>
-            match s.lockOther l with
-            | some (lk, f) => if closing && f = r.other then none else some (lk, f)
-            | none => none
+        lockFiles :=
+          match started, x.resp.sid with
+          | some _, some (l', _) => if x.resp.status == 0 then files1 ++ [(l', x.lockOwner, r.other)] else files1
+          | _, _ => files1
         lo := fun k =>
-          if ok && r.kind == .lock && k = x.lockOwner then ⟨true, x.lockSeq, some x.resp⟩ else s.lo k
+          match started with
+          | some initial =>
+            if k = x.lockOwner then
+              (if shouldComplete x.resp.status then ⟨x.lockSeq, some x.resp⟩
+               else ⟨if initial then 0 else (s.lo k).lastSeq, none⟩)
+            else s.lo k
+          | none => s.lo k
         waiting := s.waiting.filter (fun w => w.2 != o) },
-     some (call, x.resp), (s.waiting.filter (fun w => w.2 == o)).map (·.1))
+     some (call, effReply s r x), (s.waiting.filter (fun w => w.2 == o)).map (·.1))
 
 /-- A lock-owner request (LOCK with an existing lock-owner, LOCKU): runs under
 the lock in one piece. `x` is the response the operation produces IF the
@@ -225,7 +287,7 @@ structure LReq where
 deriving DecidableEq, Repr, Inhabited
 
 def lockTx (s : State) (r : LReq) (x : Resp) : State × Reply × Bool :=
-  match s.lockOther r.other with
+  match lockLookup s r.other with
   | none => (s, .err errBadStateid, false)
   | some (lk, _) =>
     let lw := s.lo lk
